@@ -47,8 +47,8 @@ ENV["RUSTFLAGS"] = "--cfg verif_replay -A warnings"    # same flags as kc.py's n
 
 # (dim, max_size); the completeness query expands s! bijections per output of size s
 TIERS = {
-    "quick": [(1, 5), (2, 5), (3, 4)],
-    "thorough": [(1, 7), (2, 6), (3, 5), (4, 4)],
+    "quick": [(1, 7), (2, 6), (3, 5), (4, 4)],
+    "thorough": [(1, 9), (2, 7), (3, 6), (4, 5), (5, 4)],
 }
 SOLVER_TIMEOUT = {"quick": 300, "thorough": 3000}
 BV = 4      # bits per chamber number (sizes <= 7)
@@ -400,6 +400,9 @@ def run_check(tier, seed):
         # replay before reporting
         known = load_known()
         n_viol = 0
+        if len(violations) > 12:
+            log("[gen6] %d candidate violations; the first 12 are replayed and reported" % len(violations))
+            violations = violations[:12]
         for v in violations:
             if v["kind"] == "missing":
                 res = replay_native(exe, "missing", v["dim"], v["max_size"], (v["size"], v["table"]))
